@@ -600,7 +600,9 @@ func (w *World) checkProperty(id, tier string, seed int, t0 time.Time, writeEvid
 
 func safetyKind(k string) bool {
 	switch k {
-	case "bounds", "nil", "div", "alloc", "unreachable", "typeassert", "conv":
+	case "bounds", "nil", "div", "alloc", "unreachable", "typeassert", "conv", "frame":
+		// (frame: a write outside the assigns clause is a write to memory the
+		// contract promises to leave alone)
 		return true
 	}
 	return false
